@@ -846,22 +846,30 @@ class DesignGen:
               '    s.rdy = OutPort()', '']
     for cl in self.classes: out += [cl, '']
     src = '\n'.join(out)
-    if self.rng.random() < 0.3:
-      # a module-level name equal to a loop variable: the loop variable shadows it (repaired defect F34)
-      src = src.replace('from pymtl3 import *\n', 'from pymtl3 import *\ni = 5\nj = 2\n', 1)
-      self.features.add('global-named-like-loopvar')
     import re
     wide = sorted({int(m) for m in re.findall(r'\bBits(\d+)\b', src) if int(m) > 256})
     if wide:        # `from pymtl3 import *` defines Bits1 … Bits256 only
       alias = '\n'.join(f'Bits{n} = mk_bits({n})' for n in wide)
       src = src.replace('from pymtl3 import *\n', 'from pymtl3 import *\n' + alias + '\n', 1)
+    self.sim_src = None
+    if self.rng.random() < 0.3:
+      # module-level names equal to the loop variables: a loop variable shadows them (repaired defect F34).
+      # The value 0 is a valid index everywhere, so PyMTL's elaboration (which resolves an index NAME to the
+      # module-level value, not to the loop variable) accepts the design; the reference simulation runs on the
+      # text without them (see c03_util.prepare 'sim_src').
+      self.sim_src = src
+      src = src.replace('from pymtl3 import *\n', 'from pymtl3 import *\ni = 0\nj = 0\n', 1)
+      self.features.add('global-named-like-loopvar')
     return src
 
 def gen_clean(rng, be, opts=None):
   g = DesignGen(rng, be, 'clean', opts)
   top = g.build_comp('Top', 0, True)
   g.finish_comp(top, True)
-  return {'src': g.render(), 'label': 'clean', 'features': sorted(g.features)}
+  src = g.render()
+  d = {'src': src, 'label': 'clean', 'features': sorted(g.features)}
+  if g.sim_src: d['sim_src'] = g.sim_src
+  return d
 
 # ---------------------------------------------------------------------------------------------
 # labelled streams: one known defect shape each (small directed designs, randomised widths / operands)
@@ -901,7 +909,7 @@ FIXED_STREAMS = {
   F20: ('yosys', 'verilog'), F21: ('verilog', 'yosys'), F22: ('yosys', 'verilog'),
   F23: ('yosys', 'verilog'),
   F29: ('verilog', 'yosys'),
-  F31: ('verilog', 'yosys'), F32: ('verilog', 'yosys'), F33: ('verilog', 'yosys'), F34: ('verilog', 'yosys'),     # the PyMTL simulation of these designs raises: only the validity of the emitted text is checked
+  F31: ('verilog', 'yosys'), F32: ('verilog', 'yosys'), F33: ('verilog', 'yosys'), F34: ('verilog', 'yosys'),
 }
 
 def _hdr(): return ['from pymtl3 import *', '']
@@ -1067,7 +1075,8 @@ def gen_finding(rng, be, fid):
     L += ['class Top( Component ):', '  def construct( s ):', f'    s.a = InPort( Bits{W} )', f'    s.b = InPort( Bits{W} )', f'    s.r = OutPort( Bits{W} )',
           '    @update_ff', '    def ff():', f"      t = s.a {rng.choice('|^+')} s.b", f'      t[{lo}:{hi}] = s.b[0:{hi - lo}]', '      s.r <<= t']
   elif fid in (F31, F32, F33, F34, F35):
-    W = max(w, 4) + rng.choice([0, 4])
+    W = rng.choice([8, 12, 16])
+    fixed_cycles = None
     L += (['i = 5', ''] if fid == F34 else []) + ['class Top( Component ):', '  def construct( s ):', f'    s.a = InPort( Bits{W} )', f'    s.b = InPort( Bits{W} )',
           '    s.c = InPort( Bits1 )', f'    s.o = OutPort( Bits{W} )', f'    s.o2 = OutPort( Bits{W} )', '    s.N = 3', '    @update', '    def up():']
     op = rng.choice('+-^')
@@ -1086,7 +1095,10 @@ def gen_finding(rng, be, fid):
       if variant == 'else':
         L += ['      if s.c:', f'        t = s.b {op} 1', '      else:', f'        t = u = s.a {op} s.b', '      s.o @= t', '      s.o2 @= u']
       else:
-        L += ['      for k in range(2):', f'        t = u = u {op} 1', '      s.o @= t', '      s.o2 @= u']
+        L += ['      for k in range(2):', f'        t = u = t {op} u', '      s.o @= t', '      s.o2 @= u']
+      # the texts differ when c = 1 (else) / when b != 0 (for)
+      fixed_cycles = [{'.a': rng.getrandbits(W), '.b': rng.getrandbits(W) | 1, '.c': 1, '.reset': 0}, {'.a': rng.getrandbits(W), '.b': rng.getrandbits(W), '.c': 0, '.reset': 0},
+                      {'.a': rng.getrandbits(W), '.b': rng.getrandbits(W) | 2, '.c': 1, '.reset': 0}]
   elif fid == F7:
     k = rng.sample(range(1, 1 << max(w, 2)), 2)
     w = max(w, 2)
@@ -1102,8 +1114,10 @@ def gen_finding(rng, be, fid):
             'features': ['finding-stream'], 'cycles': fixed_cycles}
   if fid in FIXED_STREAMS:
     return {'src': '\n'.join(L) + '\n', 'label': 'fixed:' + fid + (':' + variant if variant else ''), 'features': ['fixed-defect-shape']}
-  return {'src': '\n'.join(L) + '\n', 'label': fid + (':' + variant if variant else ''), 'finding': fid, 'variant': variant,
-          'expect': FINDING_STREAMS[fid][1], 'features': ['finding-stream']}
+  d = {'src': '\n'.join(L) + '\n', 'label': fid + (':' + variant if variant else ''), 'finding': fid, 'variant': variant,
+       'expect': FINDING_STREAMS[fid][1], 'features': ['finding-stream']}
+  if fid == F35: d['cycles'] = fixed_cycles
+  return d
 
 def gen_fixed(rng, be, fid):
   return gen_finding(rng, be, fid)
